@@ -157,6 +157,11 @@ def _dfs(root: tuple, D: int, audit_every: int, seed: int, shard: tuple[int, int
                     "cost": ch.cost(),
                 }
             )
+        # executions that run into the step cap (something in the code under test polls or spins) cost thousands of steps each: once
+        # 30 of them have been reported for this scenario slice the rest of its tree is left unexplored (only ever on a violating tree)
+        if sum(n for k, n in s.vcount.items() if "step-cap" in k or "livelock" in k) >= 30:
+            s.extra["slices_stopped_after_30_step_caps"] = s.extra.get("slices_stopped_after_30_step_caps", 0) + 1
+            break
         j = 0
         for i in range(len(prefix), len(ch.choices)):
             menu = ch.menus[i]
